@@ -1705,6 +1705,20 @@ impl<'a, C: Crypto> TransportRunner<'a, C> {
                     packet
                 );
             }
+            Err(e)
+                if matches!(e.code(), ErrorCode::NoSession)
+                    && !packet.header.plain.is_encrypted() =>
+            {
+                // An unsecured message that belongs to no unsecured session and does not start
+                // one is an answer (status report, ack, handshake reply) to something we no
+                // longer know about. It must not be answered: the `SessionNotFound` report
+                // below is itself such a message, so two nodes would answer each other's
+                // reports forever.
+                warn!(
+                    "\n>>RCV {}\n      => No valid session found for an unsecured message, dropping",
+                    packet
+                );
+            }
             Err(e) if matches!(e.code(), ErrorCode::NoSession) => {
                 // Per Matter Core spec, when a session-bearing
                 // message arrives for which we have no matching secure session
